@@ -86,6 +86,8 @@ P = ParamSpec('P')
 Ts = TypeVarTuple('Ts')
 Nested = Union[int, List['Nested']]
 JSON = Union[str, None, Dict[str, 'JSON'], List['JSON']]
+RA = Union[Sequence['RA'], int]
+RB = Union[Sequence['RB'], str]
 def f_all(x: int, /, y: str = '', *a: int, k: int, **kw: str) -> None: ...
 def f_pos(x: int, y: str) -> bool: raise NotImplementedError
 def f_opt(x: int, y: str = '') -> bool: raise NotImplementedError
@@ -119,7 +121,11 @@ EXOTIC = ["SupportsClose", "Closer", "PBox[int]", "PBox[object]", "BoxImpl[int]"
           "List[Any]", "Sequence[int]", "Sequence[object]", "Iterable[int]", "Mapping[str, int]", "Mapping[str, object]",
           "Dict[str, int]", "Dict[str, Any]", "Hashable", "Sized", "Literal['x', 'y']", "Optional[TD]",
           "Union[NT, Tuple[int, str]]", "Union[Callable[[int], str], Callme]", "Awaitable[int]", "Coroutine[Any, Any, int]",
-          "bytes", "bytearray", "memoryview", "LiteralString", "Final[int]"][:-1]
+          "bytes", "bytearray", "memoryview", "LiteralString", "RA", "RB", "Sequence[RA]", "Sequence[RB]", "Container[RB]",
+          "Final[int]"][:-1]
+# universe of the directed cache-order oracle (one query asked right after another one, compared with its cold answer)
+CACHE_ORDER_UNI = ["RA", "RB", "Sequence[RA]", "Sequence[RB]", "Container[RB]", "Nested", "JSON", "List[Nested]", "int", "str",
+                   "Sequence[int]", "List[int]"]
 # adversarial types of the modelled language (single-member enum, duplicate items, Never inside unions,
 # the same union in two item orders below a generic / tuple)
 ADVERSARIAL = ["Union[Literal[Uno.X], NoReturn]", "Union[Literal[Uno.X], Literal[Uno.X]]", "Union[Uno, None]", "Tuple[Uno]",
@@ -164,6 +170,87 @@ def tuple_universe() -> list[str]:
         for combo in itertools.product(("int", "str"), repeat=n):
             out.append("Tuple[" + ", ".join(combo) + "]")
     out += ["Tuple[object, object]", "Tuple[int, object]", "Sequence[object]", "Sequence[int]", "object"]
+    return out
+
+
+# classes of the protocol sub-universe (built only by the `subuni` worker)
+PROTO_DEFS = '''
+class HasItem(Protocol[T]):
+    item: T
+class HasItemRO(Protocol[T_co]):
+    @property
+    def item(self) -> T_co: ...
+class HasGet(Protocol[T_co]):
+    def get(self) -> T_co: ...
+class HasPut(Protocol[T_contra]):
+    def put(self, x: T_contra) -> None: ...
+class HasBoth(Protocol[T]):
+    item: T
+    def get(self) -> T: ...
+class HasName(Protocol):
+    name: str
+class HasSize(Protocol):
+    def size(self) -> int: ...
+class Box(Generic[T]):
+    item: T
+    name: str
+    def get(self) -> T: raise NotImplementedError
+    def put(self, x: T) -> None: ...
+    def size(self) -> int: raise NotImplementedError
+class IntBox(Box[int]): ...
+class StrBox(Box[str]): ...
+class BoolBox(Box[bool]): ...
+class SubBox(Box[T]): ...
+class IntSubBox(SubBox[int]): ...
+class SwapBox(Generic[S, T], Box[T]): ...
+class IntSwapBox(SwapBox[str, int]): ...
+class PropBox(Generic[T_co]):
+    @property
+    def item(self) -> T_co: raise NotImplementedError
+class IntPropBox(PropBox[int]): ...
+class PlainBox:
+    item: int
+    name: str
+    def get(self) -> int: raise NotImplementedError
+    def put(self, x: int) -> None: ...
+    def size(self) -> int: raise NotImplementedError
+'''
+# (empty-bodied subclass, the instantiated base it stands for)
+PROTO_SAME = [("IntBox", "Box[int]"), ("StrBox", "Box[str]"), ("BoolBox", "Box[bool]"), ("IntSubBox", "SubBox[int]"),
+              ("IntSubBox", "Box[int]"), ("IntPropBox", "PropBox[int]"), ("IntSwapBox", "SwapBox[str, int]"),
+              ("IntSwapBox", "Box[int]"), ("SubBox[int]", "Box[int]"), ("SubBox[str]", "Box[str]"),
+              ("SwapBox[str, int]", "Box[int]")]
+
+
+def proto_universe() -> list[str]:
+    """Protocols with attribute / property / method members and type parameters, and their implementations: generic
+    classes, NON-generic subclasses of instantiated generics, classes inheriting the member from a generic grandparent."""
+    out = []
+    for p in ("HasItem", "HasItemRO", "HasGet", "HasPut", "HasBoth"):
+        for a in ("int", "str", "object", "bool"):
+            out.append(f"{p}[{a}]")
+    out += ["HasName", "HasSize"]
+    for a in ("int", "str", "object", "bool"):
+        out += [f"Box[{a}]", f"SubBox[{a}]"]
+    out += ["PropBox[int]", "PropBox[bool]", "PropBox[object]", "SwapBox[str, int]", "SwapBox[int, str]",
+            "IntBox", "StrBox", "BoolBox", "IntSubBox", "IntSwapBox", "IntPropBox", "PlainBox", "object"]
+    return out
+
+
+TUPLE_SUPERS_GEN = ["Sequence", "Collection", "Iterable", "Container", "Reversible"]
+
+
+def tuple_super_universe() -> list[str]:
+    """Fixed tuples (0-3 items) against every typeshed supertype of tuple, instantiated at int/str/object."""
+    out = ["Tuple[()]"]
+    for n in (1, 2, 3):
+        for combo in itertools.product(("int", "str"), repeat=n):
+            out.append("Tuple[" + ", ".join(combo) + "]")
+    out += ["Tuple[object]", "Tuple[int, object]", "Tuple[bool, int]", "Tuple[bool]"]
+    for g in TUPLE_SUPERS_GEN:
+        for a in ("int", "str", "object"):
+            out.append(f"{g}[{a}]")
+    out += ["Tuple[int, ...]", "Tuple[str, ...]", "Tuple[object, ...]", "Sized", "Hashable", "object"]
     return out
 
 
@@ -275,12 +362,17 @@ def worker(mode: str, k: int, n: int, seed: int, tier: str) -> None:
     core, exotic = gen_universe(seed, quick)
     tup_uni = tuple_universe()
     call_uni = callable_universe()
+    proto_uni = proto_universe()
+    tsup_uni = tuple_super_universe()
     src = FIXTURE + "\n".join(f"u{i}: {a}" for i, a in enumerate(core)) + "\n" \
         + "\n".join(f"x{i}: {a}" for i, a in enumerate(exotic)) + "\n"
     if mode in ("flags", "subuni"):
         src += FLAGS_DEFS + "\n".join(f"z{i}: {a}" for i, a in enumerate(FLAGS_UNI)) + "\n" \
             + "\n".join(f"w{i}: {a}" for i, a in enumerate(tup_uni)) + "\n" \
             + "\n".join(f"def hh{i}({a}) -> None: ..." for i, a in enumerate(call_uni)) + "\n"
+    if mode == "subuni":
+        src += "S = TypeVar('S')\n" + PROTO_DEFS + "\n".join(f"pp{i}: {a}" for i, a in enumerate(proto_uni)) + "\n" \
+            + "\n".join(f"tt{i}: {a}" for i, a in enumerate(tsup_uni)) + "\n"
     o = Options()
     o.incremental = False
     o.cache_dir = os.devnull
@@ -688,6 +780,12 @@ def worker(mode: str, k: int, n: int, seed: int, tier: str) -> None:
             n_tup = len(tup_uni)
             W = [tree.names[f"w{i}"].node.type for i in range(n_tup)] + [tree.names[f"hh{i}"].node.type for i in range(len(call_uni))]  # type: ignore[union-attr]
             WN = list(tup_uni) + [f"def ({a})" for a in call_uni]
+            n_call = len(W)
+            W += [tree.names[f"pp{i}"].node.type for i in range(len(proto_uni))]   # type: ignore[union-attr]
+            WN += list(proto_uni)
+            n_proto = len(W)
+            W += [tree.names[f"tt{i}"].node.type for i in range(len(tsup_uni))]    # type: ignore[union-attr]
+            WN += list(tsup_uni)
 
         def has_any(t: mt.Type, depth: int = 0) -> bool:
             if depth > 6:
@@ -756,9 +854,10 @@ def worker(mode: str, k: int, n: int, seed: int, tier: str) -> None:
             nm = type(t).__name__
             return nm[:-4] if nm.endswith("Type") and len(nm) > 4 else nm
 
-        def v(law: str, ixs: list[int], detail: str) -> None:
+        def v(law: str, ixs: list[int], detail: str, key_ixs: list[int] | None = None) -> None:
             viol.append({"law": law, "types": [WN[i] for i in ixs], "strs": [str(W[i]) for i in ixs], "detail": detail,
-                         "kinds": [kind_tag(W[i]) for i in ixs], "core": [tok(W[i]) is not None for i in ixs]})
+                         "kinds": [kind_tag(W[i]) for i in (ixs if key_ixs is None else key_ixs)],
+                         "core": [tok(W[i]) is not None for i in ixs]})
         if mode == "flags":
             # ------------------------------------------------------------------ cache-key oracle
             from mypy.state import state as mypy_state
@@ -819,7 +918,7 @@ def worker(mode: str, k: int, n: int, seed: int, tier: str) -> None:
             # ------------------------------------------------------------------ laws inside the two sub-universes
             SUBm: dict[tuple[int, int], Any] = {}
             PROPm: dict[tuple[int, int], Any] = {}
-            for lo, hi in ((0, n_tup), (n_tup, m)):
+            for lo, hi in ((0, n_tup), (n_tup, n_call), (n_call, n_proto), (n_proto, m)):
                 for i in range(lo, hi):
                     for j in range(lo, hi):
                         reset()
@@ -861,9 +960,46 @@ def worker(mode: str, k: int, n: int, seed: int, tier: str) -> None:
                                     v("subtype_trans", [i, j, l], "a <: b and b <: c but not a <: c (all Any-free)")
                             if pij and PROPm[j, l] and PROPm[i, l] is False:
                                 v("proper_subtype_trans", [i, j, l], "proper: a <: b and b <: c but not a <: c (all Any-free)")
+            # ---- single-step checks
+            # (1) an empty-bodied subclass C(G[args]) (or a generic child instantiated accordingly) has exactly the
+            #     members of G[args]: both must give the same answers against every PROTOCOL of the sub-universe
+            ix = {nm: i for i, nm in enumerate(WN) if n_call <= i < n_proto}
+            for sub_nm, base_nm in PROTO_SAME:
+                a, b = ix[sub_nm], ix[base_nm]
+                for j in range(n_call, n_proto):
+                    pj = mt.get_proper_type(W[j])
+                    if not (isinstance(pj, mt.Instance) and pj.type.is_protocol):
+                        continue
+                    stat["law_evaluations"] += 2
+                    if SUBm[a, j] is not None and SUBm[b, j] is not None and SUBm[a, j] != SUBm[b, j]:
+                        v("inherited_member_step", [a, b, j], f"C inherits every member from B unchanged, but is_subtype(C, P)={SUBm[a, j]} "
+                                                               f"and is_subtype(B, P)={SUBm[b, j]}")
+                    if PROPm[a, j] is not None and PROPm[b, j] is not None and PROPm[a, j] != PROPm[b, j]:
+                        v("inherited_member_step", [a, b, j], f"proper: is_proper_subtype(C, P)={PROPm[a, j]} and is_proper_subtype(B, P)={PROPm[b, j]}")
+            # (2) a fixed tuple is below G[X] (G a covariant typeshed supertype of tuple) iff every item is below X,
+            #     and always below Sized / Hashable / object
+            for i in range(n_proto, m):
+                ti = mt.get_proper_type(W[i])
+                if not isinstance(ti, mt.TupleType) or any(isinstance(x, mt.UnpackType) for x in ti.items):
+                    continue
+                for j in range(n_proto, m):
+                    rj = mt.get_proper_type(W[j])
+                    if not isinstance(rj, mt.Instance):
+                        continue
+                    if len(rj.args) == 1 and rj.type.name in TUPLE_SUPERS_GEN:
+                        reset()
+                        want = all(safe(ms.is_subtype, x, rj.args[0]) for x in ti.items)
+                    elif not rj.args:
+                        want = True
+                    else:
+                        continue
+                    stat["law_evaluations"] += 1
+                    if SUBm[i, j] is not None and SUBm[i, j] != want:
+                        v("tuple_super_step", [i, j], f"is_subtype={SUBm[i, j]} but 'every item is a subtype of the argument' is {want}")
             reset()
             out.update(stat)
             out["S_universe"] = m
+            out["S_sub_universes"] = {"tuples": n_tup, "callables": n_call - n_tup, "protocols": n_proto - n_call, "tuple_supers": m - n_proto}
             out["S_anyfree"] = sum(1 for x in anyfree if x)
             out["violations"] = viol
             out["exception_samples"] = exc
@@ -932,6 +1068,22 @@ def worker(mode: str, k: int, n: int, seed: int, tier: str) -> None:
                             v("simplified_union_equiv", [i, j], f"simplified={su} not equivalent to the plain union")
                         if su2 is not None and (safe(ms.is_subtype, su, su2) is False or safe(ms.is_subtype, su2, su) is False):
                             v("simplified_union_order", [i, j], f"{su} vs {su2} (items swapped) not equivalent")
+        # directed cache-order oracle: reset, ask query p, ask query q; q must get its cold answer (recursive aliases are
+        # compared under assumptions, and positive answers obtained under an assumption must not outlive it)
+        R = [WN.index(nm) for nm in CACHE_ORDER_UNI if nm in WN]
+        Q = [(a, b) for a in R for b in R]
+        for fn, M, nm in ((ms.is_subtype, SUB, "is_subtype"), (ms.is_proper_subtype, PROP, "is_proper_subtype")):
+            for (a, b) in Q:
+                for (c, d) in Q:
+                    if (a, b) == (c, d) or M[c][d] is None:
+                        continue
+                    reset()
+                    safe(fn, W[a], W[b])
+                    got = safe(fn, W[c], W[d])
+                    stat["law_evaluations"] += 1
+                    if got is not None and got != M[c][d]:
+                        v("cache_after_query", [a, b, c, d], f"{nm}: after asking (t1, t2) the answer for (t3, t4) is {got}, with cold caches it is {M[c][d]}", key_ixs=[c, d])
+        reset()
         # cache keys are compared with Type.__eq__ (unions as sets): types that are == must get the same answers,
         # otherwise a cache hit for one of them would change the answer for the other
         for i in range(m):
@@ -1018,7 +1170,7 @@ def collect_result(p: subprocess.Popen, timeout: float) -> dict[str, Any] | str:
 
 
 FAMILY = {"join_upper_l": "join_upper", "join_upper_r": "join_upper", "meet_lower_l": "meet_lower", "meet_lower_r": "meet_lower",
-          "cache_is_subtype": "cache", "cache_is_proper_subtype": "cache",
+          "cache_is_subtype": "cache", "cache_is_proper_subtype": "cache", "cache_after_query": "cache_order",
           "simplified_union_equiv": "simplified_union", "simplified_union_order": "simplified_union"}
 
 
@@ -1227,6 +1379,8 @@ def run(ctx: Any) -> None:
                 f"violations={len(r['violations'])} exceptions={r['exceptions']} ({time.time()-t:.1f}s)")
         if md == "flags":
             ctx.cov["S_flag_settings"] = r.get("flag_settings")
+        if md == "subuni":
+            ctx.cov["S_sub_universes"] = r.get("S_sub_universes")
         if md != "laws":
             continue
         ctx.cov["S_universe"] = r["S_universe"]
